@@ -558,9 +558,7 @@ func (w *world) message(m *jmsg) (network.Message, network.MessageTypeID) {
 		cm := &onet.ConfigMsg{Config: onet.GenericConfig{Data: []byte{1}}}
 		if m.Dest != nil {
 			cm.Dest = w.tok(m.Dest).ID()
-		} else {
-			cm.Dest = onet.TokenID(hashUUID("dest", 1))
-		}
+		} // else the zero TokenID
 		return cm, onet.ConfigMsgID
 	}
 	panic("unknown message kind " + m.T)
@@ -1764,7 +1762,7 @@ func (g *gen) history(state string) input {
 var states = []string{"idle", "midrun", "done", "mixed"}
 
 func generate(rng *rand.Rand, tier string) []interface{} {
-	nproc, nnet := 260, 24
+	nproc, nnet := 340, 30
 	if tier != "quick" {
 		nproc, nnet = 6000, 400
 	}
@@ -1836,6 +1834,15 @@ func corpus() []interface{} {
 			recv(3, &jmsg{T: "config"}),
 			recv(3, &jmsg{T: "roster", RO: &jro{}}))
 	}
+	// after the leak of F08 the server keeps running: what blocks and what does not
+	wedge := input{Name: "f08-wedge-continue", State: "idle", Continue: true, Ops: statePrefix("idle")}
+	wedge.Ops = append(wedge.Ops,
+		recv(3, &jmsg{T: "roster", RO: &jro{ID: 5, L: []jmem{{3, true}}}}),
+		recv(3, &jmsg{T: "roster", RO: genuineRO()}),
+		recv(3, &jmsg{T: "treemarshal", TM: &jtm{Tr: 2, Ro: 5, Ch: []jnode{{N: 3, S: 3}}}}),
+		recv(3, &jmsg{T: "reqtree", Tree: 1, Ver: 1}),
+		legitPing(1, 21, "ping"))
+	ins = append(ins, wedge)
 	ins = append(ins, input{Name: "f26-stress", State: "midrun", Kind: "f26-stress"})
 	return ins
 }
